@@ -192,7 +192,7 @@ impl MetaKeyspace {
 }
 pub struct ResultUnit { pub dummy: u8 }
 
-//@extract src/meta_keyspace.rs :: MetaKeyspace :: remove_keyspace world props=C12+C06
+//@extract src/meta_keyspace.rs :: MetaKeyspace :: remove_keyspace world props=C12+C06+C16
 //@abstract let pfx: Vec<u8> => shim_write_tombstones(&mut ingestion, &self.inner, name)?;
 //@contract
     requires !old(w).ks_wlocked, !old(w).ks_rlocked, self.seqno_generator.which@ == 0, self.visible_seqno.which@ == 1,
